@@ -58,6 +58,29 @@ func NewSched(r *rand.Rand, n int, changePoints int, maxSteps int) *Sched {
 	return s
 }
 
+// NewPlanSched creates a scheduler that follows a fixed plan: worker `first`
+// runs first, the others follow in index order; at the global yield steps
+// listed in switches the running worker is preempted and goes to the back of
+// the queue. With two workers a plan with k switches is a schedule with k
+// preemptions. Steps is the number of yield steps the execution took.
+func NewPlanSched(n, first int, switches []int) *Sched {
+	s := &Sched{workers: map[uint64]*worker{}, change: map[int]bool{}}
+	for i := 0; i < n; i++ {
+		p := 1000 - i
+		if i == first {
+			p = 2000
+		}
+		s.list = append(s.list, &worker{id: i, prio: p, resume: make(chan struct{}, 1)})
+	}
+	for _, st := range switches {
+		s.change[st] = true
+	}
+	return s
+}
+
+// Steps returns the number of yield steps taken so far
+func (s *Sched) Steps() int { return s.steps }
+
 // Run starts fns as workers and returns when all have finished. It reports
 // false if the workers stopped making progress (deadlock).
 func (s *Sched) Run(fns []func()) bool {
@@ -141,7 +164,11 @@ func (s *Sched) Yield(point int) {
 		s.Trace = append(s.Trace, uint16(w.id)<<8|uint16(point))
 	}
 	if s.change[s.steps] {
-		w.prio = s.r.IntN(1000) // drop below the initial priorities
+		if s.r != nil {
+			w.prio = s.r.IntN(1000) // drop below the initial priorities
+		} else {
+			w.prio = -s.steps // planned schedule: the running worker goes to the back of the queue
+		}
 	}
 	w.parked = true
 	next := s.pick()
